@@ -409,3 +409,13 @@ V("c10-pdag-guard-adj", "C10", "fire", UT, "        if len(neighbors(i, P)) > 0:
 V("c10-no-final-assert", "C10", "fire", UT, "    assert is_consistent_extension(G, P)\n    return P\n", "    return P\n", rule="RESULT", what="consistency assertion removed")
 V("c10-silent-issubset", "C10", "silent", UT, "    if not I <= set(range(len(A))):", "    if not I.issubset(range(len(A))):", what="issubset spelling")
 V("c10-silent-guard-nonempty", "C10", "silent", UT, "        if len(neighbors(i, P)) > 0:\n            msg", "        if neighbors(i, P) != set():\n            msg", what="emptiness spelling")
+
+# ------------------------------------------------------------------------------- C03 (Kahn shape)
+V("c03-kahn-axis1", "C03", "fire", UT, "sinks = list(np.where(A.sum(axis=0) == 0)[0])", "sinks = list(np.where(A.sum(axis=1) == 0)[0])", rule="KAHN.sources", what="starts from the nodes without children")
+V("c03-kahn-no-removal", "C03", "fire", UT, "        for j in ch(i, A):\n            A[i, j] = 0\n            if len(pa(j, A)) == 0:", "        for j in ch(i, A):\n            if len(pa(j, A)) == 0:", rule="KAHN", what="visited edges never removed")
+V("c03-kahn-ready-on-children", "C03", "fire", UT, "            if len(pa(j, A)) == 0:\n                sinks.append(j)", "            if len(ch(j, A)) == 0:\n                sinks.append(j)", rule="KAHN.ready", what="readiness tested on children")
+V("c03-kahn-ready-le1", "C03", "fire", UT, "            if len(pa(j, A)) == 0:\n                sinks.append(j)", "            if len(pa(j, A)) <= 1:\n                sinks.append(j)", rule="KAHN.ready", what="child released with one parent left")
+V("c03-kahn-no-leftover-check", "C03", "fire", UT, "    if A.sum() > 0:\n        raise ValueError(\"The given graph is not a DAG\")\n    else:\n        return ordering", "    return ordering", rule="KAHN.leftover", what="cycles of length >= 3 accepted")
+V("c03-kahn-emit-child", "C03", "fire", UT, "        i = sinks.pop()\n        ordering.append(i)\n", "        i = sinks.pop()\n", more=[(UT, "                sinks.append(j)\n    # If A still contains", "                sinks.append(j)\n                ordering.append(j)\n    # If A still contains")], rule="KAHN.emit", what="sources never emitted")
+V("c03-kahn-transposed-removal", "C03", "fire", UT, "        for j in ch(i, A):\n            A[i, j] = 0\n", "        for j in ch(i, A):\n            A[j, i] = 0\n", rule="KAHN.remove-edge", what="removes the reverse entry")
+V("c03-silent-kahn-any", "C03", "silent", UT, "    if A.sum() > 0:\n        raise ValueError(\"The given graph is not a DAG\")\n    else:\n        return ordering", "    if A.any():\n        raise ValueError(\"The given graph is not a DAG\")\n    return ordering", what="any() for sum() > 0, no else")
